@@ -128,11 +128,16 @@ def _replace_chain(e: Optional[ast.AST]
 
 
 def _inner_loop(main: FuncInfo) -> ast.For:
-    loops = [n for n in walk_local(main.node) if isinstance(n, ast.For)
-             and "get_nodes" in src(n.iter)]
-    if len(loops) != 1:
-        raise AnalysisError("rotation loop not found")
-    return loops[0]
+    """The loop whose body decrypts: the innermost for around the decrypt
+    call (its iterable is the query result, directly or through a local)."""
+    decs = [c for c in walk_local(main.node) if isinstance(c, ast.Call)
+            and src(c.func).endswith(".decrypt_eyaml")]
+    if len(decs) != 1:
+        raise AnalysisError("decrypt call of the rotation not found")
+    for a in ancestors(decs[0]):
+        if isinstance(a, ast.For):
+            return a
+    raise AnalysisError("rotation loop not found")
 
 
 def d2_d3(chk: Check) -> None:
@@ -468,7 +473,12 @@ def d6_handlers(chk: Check) -> None:
              "non-zero exit state", floor=2)
     main = c17.fn(prog, ROTATE, "main")
     loop = _inner_loop(main)
-    for h in walk_local(loop):
+    # every handler inside the per-file loop (not only the per-value one):
+    # a swallowed failure anywhere on the way to a secret leaves it under
+    # the old keys while the run reports success
+    file_loops = [a for a in ancestors(loop) if isinstance(a, ast.For)]
+    scope = file_loops[-1] if file_loops else loop
+    for h in walk_local(scope):
         if isinstance(h, ast.ExceptHandler):
             sets = [s for s in h.body if isinstance(s, ast.Assign) and
                     isinstance(s.value, ast.Constant) and
